@@ -141,6 +141,24 @@ FIXED = [
     ("rarenad", None, ["2", "n:8", "n:8", "n:8", "d:2", "d:1", "d:0"]),
 ]
 
+# growth past the first arena block / past a rehash, a compaction and a copy of a XalanMap: EVERY allocation index of
+# these histories is refused in turn (quick and thorough; thorough also under ASan+UBSan)
+EXHAUSTIVE = [
+    ("arena", ["2", "n:8", "n:8", "n:8", "n:8", "n:8"]),              # three blocks of two objects
+    ("arena", ["1", "n:8", "n:8", "rs", "n:8", "n:8"]),               # block per object; reset recycles the list nodes
+    ("arena", ["3", "n:1", "n:1", "n:1", "n:1"]),
+    ("rarena", ["2", "n:8", "n:8", "n:8", "d:0", "n:8", "n:8"]),
+    ("rarenad", ["1", "n:8", "n:8", "d:0", "n:8"]),
+    ("map", ["i0:1", "i0:2", "i0:3", "i0:4", "i0:5", "i0:6", "i0:7", "i0:8", "i0:9"]),           # 3 buckets -> rehash at 5 and 9 entries
+    ("map", ["i0:1", "i0:4", "i0:7", "i0:10", "i0:13", "i0:16", "e0:1", "e0:4", "e0:7", "i0:19"]),   # one bucket chain; compaction at the third erase
+    ("map", ["i1:1", "i1:2", "i1:3", "i1:4", "i1:5", "i1:6", "a0", "i0:7", "a1"]),               # copy past a rehash of the temporary, both ways
+    ("map", ["i0:1", "i0:2", "c0", "i0:3", "i0:4", "i0:5", "i0:6", "i0:7", "x", "a0"]),            # free-list reuse after clear, then rehash
+]
+
+# the stored replays of K-new-1 / K-new-2 (corpus/C19/K24_arena_leak.txt, K25_map_leak.txt): known findings while the
+# translator finds the unrepaired shapes, regression cases (must be clean) once it finds the repaired ones
+KNOWN_REPLAYS = {"K-new-1": "K24_arena_leak.txt", "K-new-2": "K25_map_leak.txt"}
+
 # former findings, now repaired: these histories (with the refusal where it used to hurt) must be clean
 REGRESSION = [
     ("arena", 0, ["2"]),                                   # K8: never-used allocator, next allocation refused
@@ -174,6 +192,58 @@ def make_cases(ctx, n_rand):
 
 def regression_cases():
     return [("g%d" % k, fam, fuse, ops) for k, (fam, fuse, ops) in enumerate(REGRESSION)]
+
+
+def exhaustive_base():
+    return [("x%d" % k, fam, None, ops) for k, (fam, ops) in enumerate(EXHAUSTIVE)]
+
+
+def known_replay_cases():
+    """[(finding key, case)] from the stored replay files"""
+    out = []
+    for key, fn in sorted(KNOWN_REPLAYS.items()):
+        path = os.path.join(core.VERIF, "corpus", "C19", fn)
+        if not os.path.exists(path):
+            continue
+        for l in open(path):
+            t = l.split()
+            if len(t) >= 3 and not l.startswith("#"):
+                out.append((key, ("%s.%s" % (key.replace("-", ""), t[0]), t[1], None if t[2] == "-" else int(t[2]), t[3:])))
+    return out
+
+
+# ---------------------------------------------------------------------------------------------------------
+# which shape of the two allocation-failure sites does this tree have?  (translator/gen_mem.py, fail closed)
+
+SITE_FLAGS = {}          # name -> True (repaired) / False (as found); missing = the translator did not recognise the site
+
+
+def read_site_flags():
+    """the regenerated booleans of coq/GenMem.v that decide whether a leak after a refusal is the known finding"""
+    global SITE_FLAGS
+    SITE_FLAGS = {}
+    try:
+        txt = open(os.path.join(core.COQ, "GenMem.v")).read()
+        import gen_mem                      # translator/ is on sys.path (core imports srcfacts from there)
+        _, facts = gen_mem.gen_mem()        # fails closed (AnchorError) on an unknown shape: then nothing is excused as repaired
+        for k in ("arena_block_guarded", "rarena_block_guarded", "map_entry_guarded", "map_copy_guarded"):
+            m = re.search(r"^Definition %s : bool := (true|false)\.$" % k, txt, re.M)
+            if m and (m.group(1) == "true") == bool(facts[k]):
+                SITE_FLAGS[k] = bool(facts[k])
+    except Exception as ex:
+        SITE_FLAGS = {}
+    return SITE_FLAGS
+
+
+def leak_finding(fam):
+    """finding key that excuses blocks lost after a refusal in this family, or None when the site is repaired"""
+    if fam == "arena":
+        return None if SITE_FLAGS.get("arena_block_guarded") is True else "K-new-1"
+    if fam.startswith("rarena"):
+        return None if SITE_FLAGS.get("rarena_block_guarded") is True else "K-new-1"
+    if fam == "map":
+        return None if (SITE_FLAGS.get("map_entry_guarded") is True and SITE_FLAGS.get("map_copy_guarded") is True) else "K-new-2"
+    return None
 
 
 def with_fuses(ctx, cases, res_impl, per_case):
@@ -286,7 +356,8 @@ def terminate_index(line):
 # ---------------------------------------------------------------------------------------------------------
 # independent oracle on the harness' own manager table
 
-LEAK_ON_REFUSAL = {"arena": "K-new-1", "map": "K-new-2"}     # allowed by the property text (reclaimable by discarding the manager)
+# blocks lost after a refusal in an arena / a map: K-new-1 / K-new-2 (allowed by the property text: reclaimable by
+# discarding the manager) as long as the translator finds the unrepaired shape of the site - see leak_finding()
 
 
 def oracle_container(c, line):
@@ -327,16 +398,20 @@ def oracle_container(c, line):
             res.append(("K-new-6", "%d blocks never released by a ReusableArenaAllocator(destroyBlocks=true)" % out))
         elif fuse is None:
             res.append((None, "%d blocks still outstanding after the containers were destroyed (no refusal injected)" % out))
-        elif fam.startswith("rarena"):
-            res.append(("K-new-1", "%d blocks lost after a refused allocation" % out))
-        elif fam in LEAK_ON_REFUSAL:
-            res.append((LEAK_ON_REFUSAL[fam], "%d blocks lost after a refused allocation" % out))
+        elif fam.startswith("rarena") or fam in ("arena", "map"):
+            res.append((leak_finding(fam), "%d blocks lost after a refused allocation%s" % (
+                out, "" if leak_finding(fam) else " although %s releases the new block on that path in this tree" % (
+                    "XalanMap" if fam == "map" else "allocateBlock()"))))
         else:
             res.append((None, "%d blocks lost after a refused allocation in a %s" % (out, fam)))
-    # state after a refusal: vectors unchanged (strong guarantee), list lengths unchanged
-    if fam in ("vec", "list"):
+    # state after a refusal: vectors unchanged (strong guarantee), list lengths unchanged, number of arena objects
+    # unchanged, size() of both maps unchanged by a refused insert / operator= (a refused erase has erased)
+    if fam in ("vec", "list", "arena", "rarena", "rarenad", "map"):
         prev = None
-        for s in segs:
+        for si, s in enumerate(segs):
+            if fam == "map" and s[0] == "T" and 0 < si <= len(ops) and ops[si - 1][0] == "e":
+                prev = s[2]
+                continue
             if s[0] == "T" and prev is not None and s[2] != prev:
                 res.append((None, "observable state changed by an operation that threw: %s -> %s" % (prev, s[2])))
             if s[0] in ("ok", "T"):
@@ -414,6 +489,8 @@ def run(ctx):
     sizes = {int(k): int(v) for k, v in (x.split("=") for x in m.group(1).split())} if m else {}
     ctx.notes["sizeof"] = sizes
     known = {k["key"]: k for k in ctx.known.for_property("C19")}
+    flags = read_site_flags()
+    ctx.notes["allocation_failure_sites"] = {k: ("repaired" if v else "as found") for k, v in sorted(flags.items())}
 
     corr, orc = [], []
     n_rand, per_case = (40, 6) if not ctx.thorough else (300, 40)
@@ -421,6 +498,46 @@ def run(ctx):
     res_i = run_containers(ctx, impl, model, sizes, cases, corr, orc)
     faults = with_fuses(ctx, cases, res_i, per_case) + regression_cases()
     run_containers(ctx, impl, model, sizes, faults, corr, orc)
+    # growth past the first block / past a rehash: every allocation index refused in turn
+    xbase = exhaustive_base()
+    res_x = run_containers(ctx, impl, model, sizes, xbase, corr, orc)
+    xfaults = with_fuses(ctx, xbase, res_x, 10 ** 6)
+    run_containers(ctx, impl, model, sizes, xfaults, corr, orc)
+    ctx.notes["exhaustive_refusals"] = len(xfaults)
+    faults += xfaults
+    # the stored replays of K-new-1 / K-new-2: must still fail while the site has the shape as found (else the
+    # translator's flag and the library disagree), must be clean once it is repaired
+    kr = known_replay_cases()
+    orc_kr = []
+    run_containers(ctx, impl, model, sizes, [c for _, c in kr], corr, orc_kr)
+    orc += orc_kr
+    for key in sorted({k for k, _ in kr}):
+        fams = {c[1] for k, c in kr if k == key}
+        as_found = any(leak_finding(f) == key for f in fams)
+        fails = any(o["known"] == key for o in orc_kr)
+        if as_found and not fails and flags:
+            ctx.broken.append("tie: translator/gen_mem.py finds the shape of %s (blocks lost when the list node is refused) but the stored replay corpus/C19/%s is clean" % (key, KNOWN_REPLAYS[key]))
+    if ctx.thorough:
+        # the same exhaustive refusals under ASan + UBSan (a use after free / invalid free on a failure path ends the child)
+        from vlib import mem_sweep as _ms
+        ok_a, alog = core.build_lib("asan")
+        impl_a, ok_ha, hlog_a = core.build_harness("mem", "asan", extra_flags=["-DNDEBUG"]) if ok_a else (None, False, alog)
+        if not ok_ha:
+            ctx.broken.append("harness/mem.cpp does not build under ASan: " + str(hlog_a)[-300:])
+        else:
+            lines = [case_line(c) for c in xbase + xfaults]
+            rc_a, res_a, raw_a = core.run_lines_parallel(impl_a, lines, env=_ms.env_for("asan"))
+            n_a = 0
+            for c in xbase + xfaults:
+                la = res_a.get(c[0])
+                n_a += 1
+                if la is None:
+                    orc.append({"case": case_line(c), "what": "no result under ASan (crash?)", "known": None})
+                    continue
+                for kn, text in oracle_container(c, c[0] + " " + la):
+                    if "CRASH" in la or kn is None:
+                        orc.append({"case": case_line(c), "what": "under ASan+UBSan: " + text, "known": kn})
+            ctx.notes["exhaustive_refusals_asan"] = n_a
     ctx.cov["samples"] = [case_line(c) for c in cases[:3] + faults[:5]]
     ctx.cov["distinct_nontrivial"] = len({(c[1], c[2], tuple(c[3])) for c in cases + faults if len(c[3]) > 1})
     ctx.notes["rule"] = ("distinct = different (family, fuse, operation list); non-trivial = at least two operations. "
@@ -471,6 +588,11 @@ def run(ctx):
 
 
 def replay(ctx, path):
+    read_site_flags()
+    return _replay(ctx, path)
+
+
+def _replay(ctx, path):
     """container lines (`<id> vec|list|map|arena|rarena|rarenad <fuse|-> ...`) go to harness/mem.cpp and through the
     container oracle; `sweep <scenario> <xsl> <xml> <mode> <k>` lines go to harness/mem_sweep.cpp.  Exit status 1
     when a line fails (known finding or not)."""
